@@ -18,6 +18,7 @@ import (
 	"strconv"
 	"strings"
 	"sync"
+	"sync/atomic"
 	"time"
 )
 
@@ -505,16 +506,33 @@ func cmdRun(args []string) int {
 	results := make([]batchResult, len(jobsList))
 	var wg sync.WaitGroup
 	sem := make(chan struct{}, *jobs)
+	// A tree that violates the property at every turn (e.g. a hang per case) need not be explored to
+	// the end: once 60 violations are on record the remaining batches are not started. The verdict
+	// (exit 1, VIOLATION lines) is the same; never taken on a tree without violations.
+	var seenViolations atomic.Int64
+	stoppedEarly := false
 	for k, j := range jobsList {
+		if seenViolations.Load() >= 60 && !*explore {
+			stoppedEarly = true
+			break
+		}
 		wg.Add(1)
 		sem <- struct{}{}
 		go func(k int, j job) {
 			defer wg.Done()
 			defer func() { <-sem }()
 			results[k] = runRange(rc, j.id, j.from, j.to)
+			for _, e := range results[k].events {
+				if e.Ev == "violation" {
+					seenViolations.Add(1)
+				}
+			}
 		}(k, j)
 	}
 	wg.Wait()
+	if stoppedEarly {
+		lines = append(lines, "NOTE stopped early: 60 violations on record, remaining batches not run")
+	}
 
 	// 2b. the property's extra rounds under the race-detector build (e.g. Cancel racing Exec)
 	if raceExtra > 0 && !race && *limit == 0 {
